@@ -227,7 +227,9 @@ def position_pair(prog, cg, eff, chk, rid):
             fresh = False
             for w in nxt:
                 alts = _alternatives(w.value)
-                if any(a[0] == 'const' or (a[0] == 'in') for a in alts):
+                # ('const','nullopt') is the empty-optional arm of the row lookup, not a position
+                if any((a[0] == 'const' and a[1] != 'nullopt') or
+                       any(x[0] == 'in' for x in vf.leaves(a)) for a in alts):
                     fresh = True
             if fresh:
                 chk.ok(rid, inst, par[0].loc)
